@@ -60,9 +60,11 @@ struct World {
     gm.nodes = S(g->getAllNodes()); for (Id n : gm.nodes) gm.everNode.insert(n);
     gm.edges.clear(); for (Id e : g->getAllEdges()) gm.edges[e] = g->getNodes(e);
   }
+  unsigned tick = 0;
   void checkAll() {
-    checkGraph(c, *g, gm, what);
-    for (size_t k = 0; k < obs.size(); ++k) checkObs(c, obs[k], gm, what + " obs" + to_string(k));
+    unsigned rot = enumMode ? 0u : ++tick;  // random histories: probes expected to raise are made in rotation
+    checkGraph(c, *g, gm, what, rot);
+    for (size_t k = 0; k < obs.size(); ++k) checkObs(c, obs[k], gm, what + " obs" + to_string(k), rot);
   }
 
   // ---- model updates
@@ -117,9 +119,11 @@ struct World {
 
   // ---- operand draws: the k-th live item, or a deliberately absent one
   Id pickNode(bool& live) {
-    size_t n = gm.nodes.size(), k = static_cast<size_t>(c.below(n + (enumMode ? 1 : 2)));
-    live = k < n; if (live) return nth(gm.nodes, k);
-    if (k > n) for (Id x : gm.everNode) if (!gm.nodes.count(x)) return x;  // a deleted id
+    size_t n = gm.nodes.size();
+    if (enumMode) { size_t k = static_cast<size_t>(c.below(n + 1)); live = k < n; return live ? nth(gm.nodes, k) : gm.absentFresh(); }
+    size_t k = static_cast<size_t>(c.below(3 * n + 2));  // random histories: absent operands in about 2 of 3n+2 draws
+    live = k < 3 * n; if (live) return nth(gm.nodes, k % n);
+    if (k > 3 * n) for (Id x : gm.everNode) if (!gm.nodes.count(x)) return x;  // a deleted id
     return gm.absentFresh();
   }
   Id pickEdge(bool& live) {
@@ -137,14 +141,14 @@ struct World {
   ObsWorld& pickObs() { return obs[static_cast<size_t>(c.below(obs.size()))]; }
   // node object: k-th live one, or one that is not in the observer (a formerly deleted one if any, else a never associated one)
   NP pickN(ObsWorld& W, bool& live) {
-    size_t n = W.m.nId.size(), k = static_cast<size_t>(c.below(n + 1));
-    live = k < n; if (live) { auto it = W.m.nId.begin(); advance(it, static_cast<long>(k)); return W.nObj.at(it->first); }
+    size_t n = W.m.nId.size(), f = enumMode ? 1 : 3, k = static_cast<size_t>(c.below(f * n + 1));
+    live = k < f * n; if (live) { auto it = W.m.nId.begin(); advance(it, static_cast<long>(k % n)); return W.nObj.at(it->first); }
     for (const auto& kv : W.nObj) if (!W.m.nId.count(kv.first)) return kv.second;
     return newN(W);
   }
   EP pickE(ObsWorld& W, bool& live) {
-    size_t n = W.m.eId.size(), k = static_cast<size_t>(c.below(n + 1));
-    live = k < n; if (live) { auto it = W.m.eId.begin(); advance(it, static_cast<long>(k)); return W.eObj.at(it->first); }
+    size_t n = W.m.eId.size(), f = enumMode ? 1 : 3, k = static_cast<size_t>(c.below(f * n + 1));
+    live = k < f * n; if (live) { auto it = W.m.eId.begin(); advance(it, static_cast<long>(k % n)); return W.eObj.at(it->first); }
     for (const auto& kv : W.eObj) if (!W.m.eId.count(kv.first)) return kv.second;
     return newE(W);
   }
@@ -476,6 +480,7 @@ void World::step() {
   else {
     static const int tab[] = {0, 1, 2, 3, 4, 5, 6, 7, 8, 9, 10, 11, 12, 13, 14, 15, 16, 17, 18, 19, 20, 21, 22, 23, 24, 25, 26, 27, 28};
     op = tab[c.weighted({6, 8, 5, 3, 3, 2, 3, 1, 1, 2, 1, 1, 5, 5, 6, 4, 3, 2, 1, 2, 1, 1, 2, 2, 2, 2, 1, 1, 1})];
+    if (gm.nodes.size() < 3 && c.below(2) == 0) op = c.flag() ? 12 : 0;  // small graphs grow first
   }
   if (op <= 11) graphOp(op); else if (op <= 25) obsOp(op); else lifeOp(op);
   checkAll();
@@ -486,7 +491,7 @@ const char* NT = "history with a delete/unlink after >=2 links, or a direction c
 }  // namespace
 
 // ------------------------------------------------------------------ random histories: <= 40 operations over <= 8 nodes
-LAW(H_history, RC, 6000, 300000, 260, NT) {
+LAW(H_history, RC, 6000, 300000, 260, NT, 10) {
   bool directed = !c.flag();
   World w(c, false, 8, directed);
   int nops = c.irange(1, 40);
@@ -503,7 +508,7 @@ LAW(H_history, RC, 6000, 300000, 260, NT) {
 // Start configurations: directed / undirected x {empty graph, n1 -e-> n2 built through the observer, path 0->1->2 built on
 // the graph with node objects on 0 and 1 and no edge object}.  Quick: L = 3; thorough (>= ENUM_T shards): L = 4.
 const int ENUM_Q = 16, ENUM_T = 64;
-LAW(E_sequences, ENUM, ENUM_Q, ENUM_T, 0, NT) {
+LAW(E_sequences, ENUM, ENUM_Q, ENUM_T, 0, NT, 5) {
   int maxLen = c.s.enumerating() ? (c.shardN >= ENUM_T ? 4 : 3) : 6;
   bool directed = !c.flag(); int shape = static_cast<int>(c.below(3));
   World w(c, true, 4, directed);
